@@ -69,7 +69,7 @@ def run(ctx):
     ctx.rule = ("R: every document within the bound x depth, links at 4 nesting positions (expected owner of every link exported by TLC). "
                 "V: random documents of 1-9 items and up to 10 links. non-trivial = at least one target or anchored heading and one link that resolves")
     ctx.assumptions += ["docutils front end", "targets with equal normalised names excluded (docutils removes both names)"]
-    recs = [r for r in A.t_leg(ctx, quick) if r["slug_func"] == "default"]
+    recs = [r for r in A.t_leg(ctx, quick, focus="C09") if r["slug_func"] == "default"]
     for n, rec in enumerate(recs):
         rec["wrap"] = WRAPS[n % 4]
     outs = pmap(A.replay_case, recs, chunksize=64)
